@@ -18,7 +18,8 @@ ALLOWED_AXIOMS = []
 PINNED = ["C19_pratt", "C19_pratt_std", "C19_pow", "C19_int", "C19_classify", "C19_nocrash_full", "C19_nocrash",
           "C19_line", "C19_string_tree", "C19_string_int", "C19_parse_print", "C19_int_literals", "gen_is_expected",
           "C19_fuel_suffices", "C19_fuel_irrelevant", "C19_parse_calc_nofuel", "C19_nocrash_total",
-          "C19_render_parse", "C19_render_parse_fuel", "C19_render_line", "C19_render_value", "C19_dec_literal"]
+          "C19_render_parse", "C19_render_parse_fuel", "C19_render_line", "C19_render_value", "C19_dec_literal",
+          "C19_is_arithmetic_is_source_regex", "C19_arith_matchers_are_source_regexes"]
 TRUSTED = [
     "Coq 8.16.1 kernel (coqc; coqchk in thorough); vm_compute only in Example witnesses and the gen_is_expected pins",
     "hand transcription of tools::is_arithmetic (three matchers written against the regex literals pinned by "
@@ -52,6 +53,8 @@ def coq_string(s):
 
 
 def gen(ctx):
+    import regexsites
+    regexsites.gen_tools()     # round 9: Gen/ToolsRegexes.v (ASTs of the three is_arithmetic patterns; Proofs/ArithRegexProofs.v)
     tools = open(os.path.join(C.REPO, "src", "tools.rs")).read()
     m = re.search(r"pub fn is_arithmetic\(line: &str\) -> bool \{(.*?)\n\}", tools, re.S)
     if not m:
